@@ -148,6 +148,8 @@ def correspondence(ctx):
             ck = r.choice([b"", bytes(r.randrange(256) for _ in range(10)), bytes(10),
                            bytes(r.randrange(256) for _ in range(r.choice([1, 9, 11])))])
             pos = r.choice([0, 1, max(0, n - 10), max(0, n - 10), max(0, n - 9), n, n + 3, r.randrange(0, n + 1)])
+            if len(ck) == 10 and n >= 10 and pos <= n - 10:
+                p, ck = patterned(r, p, ck, pos)
             e = SoftwareCustKeyEncryptor(k, ck, pos)
             w = run_impl(e.encrypt, p)
             exprs.append("res_eqb bytes_eqb (ck_wrap toy_enc0 %s %s %s) %s" % (
@@ -240,6 +242,61 @@ def spec_valid_frame(fr):
     return crc_oracle(pay).to_bytes(2, "big") == fr[-2:]
 
 
+def indep_cbc_encrypt(key, pt):
+    """AES-128-CBC zero IV, block by block through pyaes' raw block cipher"""
+    from register_crypto_plugin.pyaes import aes
+    a = aes.AES(key)
+    prev = bytes(16)
+    out = b""
+    for i in range(0, len(pt), 16):
+        c = bytes(a.encrypt(bytes(x ^ y for x, y in zip(pt[i:i + 16], prev))))
+        out += c
+        prev = c
+    return out
+
+
+def crafted_frames(r, n):
+    """(label, plaintext frame): frames built by hand - right and wrong CRC for every small length byte (0..4:
+    empty and tiny payloads), wrong marker, length byte beyond the frame, payload overlapping the header"""
+    for _ in range(n):
+        nb = r.choice([1, 1, 2, 3])
+        fr = bytearray(r.randrange(256) for _ in range(16 * nb))
+        style = r.choice(["valid", "valid", "badcrc", "badcrc", "badcrc", "marker", "L>len", "L<2"])
+        fr[0] = 0x42 if style != "marker" else r.choice([0x41, 0x43, 0x62, 0x00])
+        if style == "L>len":
+            fr[1] = min(255, len(fr) + r.randrange(1, 5))
+        elif style == "L<2":
+            fr[1] = r.choice([0, 1])
+        else:
+            L = r.choice([2, 2, 2, 3, 4, r.randrange(2, len(fr) + 1)])
+            fr[1] = L
+            pay = bytes(fr[len(fr) - L:len(fr) - 2])
+            c = crc_oracle(pay)
+            if style == "badcrc":
+                c ^= r.choice([1, 0x100, 0x8000, 0xFFFF, 0x00FF])
+            fr[-2:] = c.to_bytes(2, "big")
+        yield style, bytes(fr)
+
+
+
+def patterned(r, p, ck, pos):
+    """sometimes: a customer key that is a repeating pattern and/or a payload that already holds copies of the key
+    (before the slot, overlapping it, after it) - the slot is defined by its position, not by its content"""
+    x = r.random()
+    if x < 0.55:
+        return p, ck
+    if x < 0.7:
+        ck = bytes([r.randrange(256)]) * 10
+    elif x < 0.8:
+        ck = (bytes([r.randrange(256), r.randrange(256)]) * 5)
+    p = bytearray(p)
+    for _ in range(r.choice([1, 1, 2, 3])):
+        at = r.choice([0, max(0, pos - 10), max(0, pos - r.randrange(1, 10)), pos + r.randrange(1, 10), r.randrange(0, len(p) + 1)])
+        p[at:at + 10] = ck[:max(0, len(p) - at)]
+    return bytes(p), ck
+
+
+
 def search(ctx):
     from bec2format.bec2file import SoftwareCustKeyEncryptor, ConfigSecurityCodeEncryptor
     from bec2format.error import Bec2FileFormatError
@@ -274,6 +331,25 @@ def search(ctx):
         u3 = run_impl(e.decrypt, bytes(ct))
         if u3[0] == "ok" and not spec_valid_frame(indep_cbc_decrypt(k, bytes(ct))):
             ctx.fail("damaged-frame-accepted", {"key": k, "ct": bytes(ct)}, repr(u3)[:200])
+    # hand-built frames (encrypted with the raw block cipher, not the library): accepted exactly when marker, length
+    # byte and CRC are right by the independent spec, and then with exactly the payload the frame carries
+    for style, fr in crafted_frames(r, ctx.budget(400, 6000) * (4 if ctx.brokens else 1)):
+        k = rkey(r)
+        ct = indep_cbc_encrypt(k, fr)
+        ctx.case(("search-crafted", k, fr))
+        ctx.dist["search-crafted:" + style] += 1
+        u = run_impl(SoftwareCustKeyEncryptor(k).decrypt, ct)
+        valid = spec_valid_frame(fr)
+        if u[0] == "ok" and not valid:
+            ctx.fail("damaged-frame-accepted", {"key": k, "ct": ct}, "hand-built frame %s (%s) unwraps to %r" % (fr.hex(), style, u[1]))
+        elif u[0] == "ok" and u[1] != fr[len(fr) - fr[1]:len(fr) - 2]:
+            ctx.fail("unwrap-not-inverse", {"key": k, "payload": fr[len(fr) - fr[1]:len(fr) - 2], "ct": ct},
+                     "hand-built valid frame %s unwraps to %r" % (fr.hex(), u[1]))
+        elif u[0] == "err" and u[1] not in ("EBec2", "EValue"):
+            ctx.fail("wrong-key-error-type", {"key": k, "key2": k, "payload": b"", "ct": ct}, "hand-built frame %s: %s" % (fr.hex(), u[1]))
+        elif u[0] == "err" and valid:
+            ctx.fail("unwrap-not-inverse", {"key": k, "payload": fr[len(fr) - fr[1]:len(fr) - 2], "ct": ct},
+                     "hand-built valid frame %s is rejected: %s" % (fr.hex(), u[1]))
     # one encryptor object reused for a sequence of wraps and unwraps (no state may carry over)
     for _ in range(ctx.budget(40, 600)):
         k = rkey(r)
@@ -304,6 +380,7 @@ def search(ctx):
         p = bytes(r.randrange(256) for _ in range(n))
         ck = bytes(r.randrange(256) for _ in range(10))
         pos = r.choice([0, n - 10, r.randrange(0, n - 9)])
+        p, ck = patterned(r, p, ck, pos)
         ctx.case(("search-ck", k, p, ck, pos))
         e = SoftwareCustKeyEncryptor(k, ck, pos)
         w = run_impl(e.encrypt, p)
@@ -340,12 +417,39 @@ def search(ctx):
 def replay(ctx, data):
     from bec2format.bec2file import SoftwareCustKeyEncryptor
     rc = 0
+    hx = lambda v: bytes.fromhex(v["hex"]) if isinstance(v, dict) else v
     for f in data.get("fails", []):
         d = f["data"]
         print(f["kind"], f["detail"])
-        if "payload" in d and "key" in d:
-            k = bytes.fromhex(d["key"]["hex"])
-            p = bytes.fromhex(d["payload"]["hex"])
+        if "ck" in d and "key" in d:
+            k, p, ck, pos = hx(d["key"]), hx(d["payload"]), hx(d["ck"]), d["pos"]
+            e = SoftwareCustKeyEncryptor(k, ck, pos)
+            w = run_impl(e.encrypt, p)
+            print(" wrap with customer key %s at %d ->" % (ck.hex(), pos), w[0], (w[1].hex() if w[0] == "ok" else w[1]))
+            if w[0] == "ok":
+                fr = indep_cbc_decrypt(k, w[1])
+                why = spec_frame_ok(fr, p[:pos] + ck + p[pos + 10:])
+                u = run_impl(e.decrypt, w[1])
+                want = ("ok", p[:pos] + bytes(10) + p[pos + 10:])
+                print(" frame:", fr.hex(), "spec says:", why)
+                print(" unwrap ->", u, "expected", want)
+                rc |= bool(why) or u != want
+            else:
+                rc |= 1
+        elif "ct" in d and "key" in d:
+            k, ct = hx(d["key"]), hx(d["ct"])
+            fr = indep_cbc_decrypt(k, ct)
+            valid = spec_valid_frame(fr)
+            u = run_impl(SoftwareCustKeyEncryptor(k).decrypt, ct)
+            print(" frame:", fr.hex(), "valid by the spec:", valid)
+            print(" unwrap ->", u)
+            if u[0] == "ok":
+                rc |= (not valid) or u[1] != fr[len(fr) - fr[1]:len(fr) - 2]
+            else:
+                rc |= valid or u[1] not in ("EBec2", "EValue")
+        elif "payload" in d and "key" in d:
+            k = hx(d["key"])
+            p = hx(d["payload"])
             e = SoftwareCustKeyEncryptor(k)
             w = run_impl(e.encrypt, p)
             print(" wrap ->", w[0], (w[1].hex() if w[0] == "ok" else w[1]))
